@@ -247,7 +247,7 @@ func (r *rwRT) ruleFactory() {
 	bad := ""
 	paths := 0
 	for _, kind := range r.stmtKinds() {
-		if _, unsup := unsupportedKinds[kind]; unsup {
+		if _, unsup := unsupportedKinds[kind]; unsup || eitherWayKinds[kind] {
 			continue
 		}
 		for _, shp := range r.shapes(kind) {
